@@ -1,13 +1,14 @@
 #!/venv/bin/python
 """Runs registered checks against each confirmed seeded mutant (in a scratch worktree of /repo HEAD, imported via
 PYTHONPATH, outputs redirected with VERIF_OUT so that /verif/evidence is untouched) and records which checks catch it.
-usage: run_seeded.py [--all-checks] [ids...]   -> /verif/seeded/RESULTS.json"""
+usage: run_seeded.py [--all-checks | --own-only] [--redo] [ids...]   -> /verif/seeded/RESULTS.json"""
 import json, os, subprocess, sys, shutil, time
 
 BASE = os.path.dirname(os.path.dirname(os.path.abspath(__file__)))   # the /verif tree this script belongs to (a snapshot under vp run)
 SEEDED = os.path.join(BASE, "seeded")
 args = [a for a in sys.argv[1:] if not a.startswith("--")]
 all_checks = "--all-checks" in sys.argv
+own_only = "--own-only" in sys.argv      # only the check of the property the change was written for
 manifest = json.load(open(os.path.join(BASE, "MANIFEST.json")))
 claimed = [c["property_id"] for c in manifest["checks"]]
 ids = args or sorted(d for d in os.listdir(SEEDED) if os.path.isdir(os.path.join(SEEDED, d)))
@@ -34,7 +35,7 @@ for mid in ids:
             print(mid, "PATCH DOES NOT APPLY", flush=True)
             continue
         env = dict(os.environ, PYTHONPATH=f"{wt}/src", VERIF_REPO_SRC=f"{wt}/src", VERIF_OUT=out)
-        order = ([prop] if prop in claimed else []) + [p for p in claimed if p != prop]
+        order = ([prop] if prop in claimed else []) + ([] if own_only else [p for p in claimed if p != prop])
         caught = {}
         for p in order:
             t0 = time.time()
